@@ -91,7 +91,8 @@ Proof.
     + destruct (if counts_as_failure e then count_failure c (counter s) (limit s) else (counter s, limit s)) as [n lim].
       intros e0 He. cbn in He. destruct ((if is_interrupt e || stop s then true else stop s) || lim); discriminate.
     + intros e0 He. cbn in He.
-      destruct (forallb is_dead (workers s) && (if drain_fix c then match queue s with [] => true | _ :: _ => false end else true)); discriminate.
+      destruct (forallb is_dead (workers s)); [destruct (drain_fix c)|]; discriminate.
+    + intros e0 He. cbn in He. destruct (queue s); discriminate.
     + intros e0 He. rewrite Ecp in He. discriminate.
   - destruct (nth_error (workers s) i) eqn:Ei; auto.
     destruct (worker_step_flags c s i w) as (_ & _ & F3).
@@ -124,6 +125,7 @@ Proof.
       rewrite Forall_forall in Q4. apply Q4. apply in_or_app. left. apply in_or_app. right. left. reflexivity. }
     assert (Hi : is_interrupt e = false) by (destruct e; auto; destruct Hce).
     unfold quiet, hist in *. cbn. rewrite Q1, Hi. cbn. repeat split; auto.
+  - unfold quiet, hist in *. cbn. repeat split; auto.
   - unfold quiet, hist in *. cbn. repeat split; auto.
   - repeat split; auto.
 Qed.
@@ -283,6 +285,7 @@ Proof.
   - destruct (if counts_as_failure e then count_failure c (counter s) (limit s) else (counter s, limit s)).
     eapply placed_ext; eauto.
   - eapply placed_ext; eauto.
+  - eapply placed_ext; eauto.
   - exact Hp.
 Qed.
 
@@ -330,7 +333,8 @@ Proof.
         unfold fold_trace in S1. rewrite <- S1. reflexivity. }
       destruct lim; exact Hgoal.
     + unfold processed in *. rewrite Ecp in S1. split; auto. cbn.
-      destruct (forallb is_dead (workers s) && (if drain_fix c then match queue s with [] => true | _ :: _ => false end else true)); auto.
+      destruct (forallb is_dead (workers s)); [destruct (drain_fix c)|]; auto.
+    + unfold processed in *. rewrite Ecp in S1. split; auto. cbn. destruct (queue s); auto.
     + split; auto.
   - destruct (nth_error (workers s) i) eqn:Ei; [|split; auto].
     destruct (worker_step_flags c s i w) as (_ & _ & F3).
@@ -430,7 +434,7 @@ Theorem complete_run_reports c sched n os :
      (forall o, In o os -> is_bad (expected_status c o) = false) /\ has_nonfatal (trace s) = false).
 Proof.
   intros Hfix Hm Hn Hn1 s Hcp.
-  destruct (invAll_run c sched n os Hfix Hm Hn) as (HP & HQ & [J1 J2] & [S1 S2] & HA & HB & [_ HC]).
+  destruct (invAll_run c sched n os Hfix Hm Hn) as (HP & HQ & [J1 J2] & [S1 S2] & HA & HB & [_ [HC _]]).
   fold s in HP, HQ, J1, J2, S1, S2, HC.
   destruct HQ as (Q1 & Q2 & Q3 & Q4 & Q5).
   assert (Hts : has_to_stop s = false) by (unfold has_to_stop; rewrite Q1, Q2; reflexivity).
